@@ -15,6 +15,12 @@ pub fn main_pool(args: &[String]) -> i32 {
         }
     }
     let physical = num_cpus_physical();
+    // count panics of any thread (a worker that panics in rayon's start handler does not stop the pool)
+    static PANICS: std::sync::atomic::AtomicUsize = std::sync::atomic::AtomicUsize::new(0);
+    std::panic::set_hook(Box::new(|_| {
+        PANICS.fetch_add(1, std::sync::atomic::Ordering::SeqCst);
+    }));
+    let avail = affinity_count();
     // N threads race on the first get_or_init_pool()
     let barrier = Arc::new(Barrier::new(racers));
     let mut handles = vec![];
@@ -48,11 +54,26 @@ pub fn main_pool(args: &[String]) -> i32 {
     let all_borrowed = results.iter().all(|r| r.1);
     let same = if all_borrowed { results.iter().all(|r| r.2 == addr0) } else { results.iter().all(|r| !r.1) };
     let same_threads = results.iter().all(|r| r.0 == threads);
+    // let every worker finish its start handler
+    std::thread::sleep(std::time::Duration::from_millis(60));
+    let panics = PANICS.load(std::sync::atomic::Ordering::SeqCst);
+    let pools = if all_borrowed { 1 } else { results.len() };
     println!(
-        "threads={} borrowed={} same={} same_threads={} work={} physical={}",
-        threads, borrowed as u8, same as u8, same_threads as u8, work, physical
+        "threads={} borrowed={} same={} same_threads={} work={} physical={} panics={} avail={} pools={}",
+        threads, borrowed as u8, same as u8, same_threads as u8, work, physical, panics, avail, pools
     );
     0
+}
+
+/// number of CPUs in this process' affinity mask (what `core_affinity::get_core_ids()` enumerates)
+fn affinity_count() -> usize {
+    unsafe {
+        let mut set: libc::cpu_set_t = std::mem::zeroed();
+        if libc::sched_getaffinity(0, std::mem::size_of::<libc::cpu_set_t>(), &mut set) != 0 {
+            return 0;
+        }
+        (0..libc::CPU_SETSIZE as usize).filter(|&i| libc::CPU_ISSET(i, &set)).count()
+    }
 }
 
 mod rayon_pool {
